@@ -26,8 +26,10 @@ FLAWS = ["Flaw_StaleNext", "Flaw_NoProposerReload", "Flaw_NoStakeReload", "Flaw_
 
 
 def mc_cfg(tier, deviations, **over):
-    c = {"NV": 4, "NGenesis": 3, "MaxEpoch": 3 if tier == "quick" else 4, "MinLA": 1, "MaxLA": 1, "Period": 2,
-         "AltairEpoch": 1 if tier == "quick" else 2}
+    if tier == "quick":
+        c = {"NV": 4, "NGenesis": 2, "MaxEpoch": 3, "MinLA": 1, "MaxLA": 1, "Period": 2, "AltairEpoch": 1}
+    else:
+        c = {"NV": 4, "NGenesis": 3, "MaxEpoch": 4, "MinLA": 1, "MaxLA": 1, "Period": 2, "AltairEpoch": 2}
     for f in FLAWS:
         c[f] = "FALSE"
     c.update(over)
@@ -41,8 +43,8 @@ def model_check(tier, deviations):
     """Exhaustive MC of the incremental maintenance; each Flaw_* switch and each unsound look-ahead must violate."""
     wd = lib.fresh_spec_copy()
     open(os.path.join(wd, "mc.cfg"), "w").write(mc_cfg(tier, deviations))
-    res = lib.tlc("MC_EpochsContext", cfg="mc.cfg", workdir=wd, workers=8 if tier == "quick" else 12,
-                  timeout=900 if tier == "quick" else 2400)
+    res = lib.tlc("MC_EpochsContext", cfg="mc.cfg", workdir=wd, workers=6 if tier == "quick" else 12,
+                  timeout=1500 if tier == "quick" else 3000, heap="4g")
     if res.rc != 0 or res.errors or "No error has been found" not in res.out:
         raise lib.InfraError("MC_EpochsContext did not pass (specification problem, not a verdict):\n" + res.out[-4000:])
     flaws = {}
@@ -52,7 +54,7 @@ def model_check(tier, deviations):
         name, over = v
         cfgname = "mc_%s.cfg" % re.sub(r"\W", "_", name)
         open(os.path.join(wd, cfgname), "w").write(mc_cfg(tier, deviations, **over))
-        r = lib.tlc("MC_EpochsContext", cfg=cfgname, workdir=wd, workers=2, timeout=900)
+        r = lib.tlc("MC_EpochsContext", cfg=cfgname, workdir=wd, workers=2, timeout=1500, heap="2g")
         return name, r
     for name, r in lib.parallel_map(one, variants, workers=4):
         if "Matches" not in r.invariant_violated:
@@ -62,7 +64,7 @@ def model_check(tier, deviations):
     # without the known deviation the model itself exhibits it (design-level confirmation of the finding)
     if deviations:
         open(os.path.join(wd, "mc_nodev.cfg"), "w").write(mc_cfg(tier, []))
-        r = lib.tlc("MC_EpochsContext", cfg="mc_nodev.cfg", workdir=wd, workers=2, timeout=900)
+        r = lib.tlc("MC_EpochsContext", cfg="mc_nodev.cfg", workdir=wd, workers=2, timeout=1500, heap="2g")
         flaws["KnownDeviations={}"] = "violates Matches" if "Matches" in r.invariant_violated else "holds"
     shutil.rmtree(wd, ignore_errors=True)
     return res, flaws
@@ -76,7 +78,7 @@ def validate_file(trace_path, deviations, timeout=2400):
     devs = "{" + ", ".join('"%s"' % d for d in sorted(deviations)) + "}"
     open(os.path.join(wd, "t.cfg"), "w").write(
         "SPECIFICATION TraceSpec\nCONSTANTS\n  KnownDeviations = %s\nPOSTCONDITION TraceAccepted\nCHECK_DEADLOCK FALSE\n" % devs)
-    res = lib.tlc("EpochsContextTrace", cfg="t.cfg", workdir=wd, workers=1, timeout=timeout)
+    res = lib.tlc("EpochsContextTrace", cfg="t.cfg", workdir=wd, workers=1, timeout=timeout, heap="3g")
     shutil.rmtree(wd, ignore_errors=True)
     if res.rc != 0 or res.errors or "Model checking completed" not in res.out:
         raise lib.InfraError("TLC failed on %s:\n%s" % (trace_path, res.out[-5000:]))
@@ -149,6 +151,9 @@ def run_check(tier, seed, replay=None):
     def job(i):
         out = os.path.join(d, "c%03d.ndjson" % i)
         summ, crash, err = record(binp, tier_r, seed_r, i, out)
+        if os.path.getsize(out) == 0:   # zrnt could not build the chain: nothing to validate
+            empty = lib.TLCResult(0, "", 0)
+            return i, out, summ, crash, empty, [], collections.Counter()
         res, mism, devs_seen = validate_file(out, deviations)
         return i, out, summ, crash, res, mism, devs_seen
     results = lib.parallel_map(job, todo, workers=max(4, lib.NCPU - (0 if replay else 6)))
@@ -161,6 +166,7 @@ def run_check(tier, seed, replay=None):
     violations = []
     known = collections.Counter()
     stopped = []
+    unbuildable = []
     for i, path, s, crash, res, mism, devs_seen in results:
         states += res.distinct
         transitions += res.generated
@@ -177,6 +183,8 @@ def run_check(tier, seed, replay=None):
                 samples.append(s["sample"][0])
             if s.get("stopped"):
                 stopped.append("%s: %s" % (cfg["name"], s["stopped"][:200]))
+            if s.get("unbuildable"):
+                unbuildable.append(cfg["name"])
         events = lib.read_ndjson(path) if (mism or crash) else []
         offending = []
         if crash:
@@ -199,11 +207,13 @@ def run_check(tier, seed, replay=None):
                 known[f["id"]] += n
 
     mres, flaws = (None, {})
+    mc_err = None
     if not replay:
         mc_thread.join()
         if "err" in mc_holder:
-            raise mc_holder["err"]
-        mres, flaws = mc_holder["res"]
+            mc_err = mc_holder["err"]  # raised below, unless a violation was observed on the real code
+        else:
+            mres, flaws = mc_holder["res"]
 
     rc = 0
     for fid, n in known.items():
@@ -227,6 +237,10 @@ def run_check(tier, seed, replay=None):
         lib.log("%d offending observations in total, %d distinct signatures reported" % (len(violations), len(seen)))
     for s in stopped:
         lib.log("note: scenario stopped early: " + s)
+    if rc == 0 and mc_err is not None:
+        raise mc_err
+    if rc == 0 and unbuildable:
+        raise lib.InfraError("zrnt could not build the genesis of %s and no deviation was observed elsewhere" % unbuildable)
 
     if not replay:
         need = ["epoch-boundary", "sync-period-boundary", "deposit-new-validator", "deposit-mid-epoch",
@@ -242,9 +256,9 @@ def run_check(tier, seed, replay=None):
             missing.append("reload points")
         if tot["branches"] == 0:
             missing.append("branches")
-        if len(stopped) > len(cfgs) // 3:
+        if rc == 0 and len(stopped) > len(cfgs) // 3:
             missing.append("too many scenarios stopped early: %s" % stopped[:3])
-        if missing:
+        if missing and rc == 0:
             raise lib.InfraError("vacuous run, never exercised: %s" % missing)
 
     cov = {
@@ -265,7 +279,8 @@ def run_check(tier, seed, replay=None):
         "known_deviations_enabled": deviations, "deviations_used": dict(devs_total), "known_findings_seen": dict(known),
         "scenarios_stopped_early": stopped,
         "mc": {"distinct_states": mres.distinct if mres else 0, "depth": mres.depth if mres else 0,
-               "bound": "4 validators (3 at genesis + deposits), epochs 0..%d, altair upgrade, sync period 2" % (3 if tier == "quick" else 4),
+               "bound": ("4 validators (2 at genesis + 2 deposits), epochs 0..3, altair upgrade at 1, sync period 2" if tier == "quick" else
+                         "4 validators (3 at genesis + 1 deposit), epochs 0..4, altair upgrade at 2, sync period 2"),
                "vacuity": flaws},
         "exhaustive": False,
         "exhaustive_part": "MC_EpochsContext: every interleaving of reveals, exits, slashings, deposits and epoch boundaries "
